@@ -302,6 +302,42 @@ def iterator_driven(bf, blocks):
     return False
 
 
+def counter_driven(bf, blocks):
+    """a counting loop: an exit test compares a local with a loop-invariant bound (`n > 0`, `n != 0`, `i < N`), every
+    definition of that local inside the loop moves it one way by a positive constant, so the exit is reached"""
+    from ..rules import defs_with_conditions, linear
+    for b2 in blocks:
+        t2 = bf.body.blocks[b2].term
+        if t2.k != 'switch':
+            continue
+        outs = [tg for _, tg in t2.targets] + [t2.otherwise]
+        if not any(o is not None and o not in blocks for o in outs):
+            continue
+        tm = term_of_operand(bf, t2.discr)
+        if not (isinstance(tm, tuple) and len(tm) == 3 and tm[0] in ('Gt', 'Ge', 'Lt', 'Le', 'Ne')):
+            continue
+        for var_, bound, down in ((tm[1], tm[2], tm[0] in ('Gt', 'Ge', 'Ne')), (tm[2], tm[1], tm[0] in ('Lt', 'Le'))):
+            if not (isinstance(var_, tuple) and var_[:1] == ('phi',)):
+                continue
+            if term_contains(bound, lambda y: isinstance(y, tuple) and y[:1] == ('phi',)):
+                continue
+            if tm[0] == 'Ne' and bound != ('const', 0):
+                continue
+            steps = []
+            ok = True
+            for v, cs, bb in defs_with_conditions(bf, var_[1]):
+                if bb not in blocks:
+                    continue
+                l_ = linear(v)
+                if l_[0] == {var_: 1} and l_[1] != 0 and ((l_[1] < 0) == down) and (tm[0] != 'Ne' or l_[1] == -1):
+                    steps.append(bb)
+                else:
+                    ok = False
+            if ok and steps:
+                return True
+    return False
+
+
 def await_loop(bf, blocks):
     """the poll loop of one `.await`: poll -> Pending -> yield -> poll again; nothing else is called inside"""
     has_yield = any(bf.body.blocks[b].term.k == 'yield' for b in blocks)
@@ -489,7 +525,7 @@ def flow_rules(c, res, an):
             n_loops += 1
             if await_loop(bf, blocks):
                 continue
-            if not iterator_driven(bf, blocks):
+            if not iterator_driven(bf, blocks) and not counter_driven(bf, blocks):
                 non_iter += 1
         if non_iter:
             found[fn.replace(D, '')] = non_iter
